@@ -49,7 +49,13 @@ func (w Writer) Delete(
 	ctx context.Context,
 	keys ...Key,
 ) error {
-	return w.table.NewDelete().Where(gorp.MatchKeys[Key, Policy](keys...)).Exec(ctx, w.tx)
+	if err := w.table.NewDelete().Where(gorp.MatchKeys[Key, Policy](keys...)).Exec(ctx, w.tx); err != nil {
+		return err
+	}
+	// Remove the policies from the ontology as well: the relationships that attach
+	// them to roles would otherwise attach any policy created later under the same
+	// key.
+	return w.otg.DeleteManyResources(ctx, OntologyIDs(keys))
 }
 
 func (w Writer) SetOnRole(
